@@ -1,3 +1,150 @@
 package main
 
-func intcomToy(q uint64) { fail("intcom not built yet") }
+// Ring-Pedersen (intcom) over a toy safe-prime modulus N = p*q (p = 2p'+1, q = 2q'+1): every group
+// element is logged as its residue mod N (< 2^31), messages and witnesses are small signed integers, the
+// order o = p'q' of QR(N) and the trapdoor are in the header, so CommitTrace recomputes s^m * t^r mod N.
+
+import (
+	"fmt"
+	"math/big"
+
+	"github.com/bronlabs/bron-crypto/pkg/base/nt/num"
+	"github.com/bronlabs/bron-crypto/pkg/base/nt/znstar"
+	"github.com/bronlabs/bron-crypto/pkg/commitments"
+	"github.com/bronlabs/bron-crypto/pkg/commitments/intcom"
+
+	"verif/harness/tr"
+)
+
+func icVal(c *intcom.Commitment) uint64 { return c.Value().Value().Big().Uint64() }
+
+func intcomToy(which uint64) {
+	primes := [][2]uint64{{47, 59}, {83, 107}}
+	if which >= uint64(len(primes)) {
+		fail("unknown toy modulus")
+	}
+	p, q := primes[which][0], primes[which][1]
+	N := p * q
+	o := (p / 2) * (q / 2)
+	group, err := znstar.NewRSAGroup(must(num.NPlus().FromUint64(p)), must(num.NPlus().FromUint64(q)))
+	if err != nil {
+		fail("NewRSAGroup: " + err.Error())
+	}
+	n := nFlag
+	pr := tr.PRand(seed, 187)
+	prng := tr.Rng(seed, 188)
+	zo := must(num.NewZMod(must(num.NPlus().FromUint64(o))))
+	w.Emit(map[string]any{"a": "hdr", "k": "hdr", "q": 3, "N": N, "o": o})
+	I := func(v int64) *num.Int { return num.Z().FromInt64(v) }
+	msg := func(v int64) *intcom.Message { return must(intcom.NewMessage(I(v))) }
+	wit := func(v int64) *intcom.Witness { return must(intcom.NewWitness(I(v))) }
+	com := func(v uint64) *intcom.Commitment {
+		return must(intcom.NewCommitment(must(group.FromUint64(v)).ForgetOrder()))
+	}
+	for i := 0; i < n; i++ {
+		// a generator t of QR(N) and a unit trapdoor lambda, chosen here; NewTrapdoorKey re-validates them
+		var tk *intcom.TrapdoorKey
+		var tv, lam uint64
+		for {
+			a := 2 + pr.Uint64N(N-2)
+			tv = a * a % N
+			lam = 2 + pr.Uint64N(o-2)
+			te, err := group.FromUint64(tv)
+			if err != nil {
+				continue
+			}
+			tk, err = intcom.NewTrapdoorKey(te, zo.FromUint64(lam))
+			if err == nil {
+				break
+			}
+		}
+		pk := tk.Export()
+		sv := pk.S().Value().Big().Uint64()
+		rng := int64(3 * o)
+		m, r := pr.Int64N(2*rng)-rng, pr.Int64N(2*rng)-rng
+		if i%7 == 0 {
+			m = 0
+		}
+		if i%11 == 0 {
+			r = 0
+		}
+		M, W := msg(m), wit(r)
+		c := must(pk.CommitWithWitness(M, W))
+		ct := must(tk.CommitWithWitness(M, W))
+		cv := icVal(c)
+		opens := [][]any{}
+		open := func(k *intcom.CommitmentKey, cc uint64, mm, rr int64) {
+			err := k.Open(com(cc), msg(mm), wit(rr))
+			opens = append(opens, []any{k.S().Value().Big().Uint64(), k.T().Value().Big().Uint64(), cc, mm, rr, err == nil})
+		}
+		open(pk, cv, m, r)
+		open(pk, icVal(ct), m, r)
+		for _, d := range []int64{1, -1, 2, int64(o), -int64(o), int64(o) + 1, pr.Int64N(rng) + 1} {
+			open(pk, cv, m+d, r)
+			open(pk, cv, m, r+d)
+		}
+		for _, d := range []uint64{1, 2, N - 1} {
+			if c2, err := group.FromUint64((cv + d) % N); err == nil {
+				open(pk, c2.Value().Big().Uint64(), m, r)
+			}
+		}
+		// equivocation: the witness is re-randomised inside its residue class mod o, so it is logged mod o
+		equivs := [][]any{}
+		for j := 0; j < 4; j++ {
+			m2 := pr.Int64N(2*rng) - rng
+			if j == 0 {
+				m2 = m
+			}
+			w2, err := tk.Equivocate(M, W, msg(m2), prng)
+			if err != nil {
+				equivs = append(equivs, []any{m2, -1, false, false})
+				continue
+			}
+			w2mod := new(big.Int).Mod(w2.Value().Big(), new(big.Int).SetUint64(o)).Uint64()
+			okPub := pk.Open(c, msg(m2), w2) == nil
+			// inside the range SampleWitness draws from: |w2| < N * 2^80
+			bound := new(big.Int).Lsh(new(big.Int).SetUint64(N), 80)
+			inRange := w2.Value().Big().CmpAbs(bound) <= 0
+			equivs = append(equivs, []any{m2, w2mod, okPub, inRange})
+		}
+		// homomorphic operations on the commitment with small operands
+		m3, r3 := pr.Int64N(2*rng)-rng, pr.Int64N(2*rng)-rng
+		s := pr.Int64N(41) - 20
+		c3 := must(pk.CommitWithWitness(msg(m3), wit(r3)))
+		homs := [][]any{}
+		hom := func(op string, res *intcom.Commitment, err error, mm, rr *num.Int) {
+			if err != nil {
+				homs = append(homs, []any{op, 0, 0, 0, false, true})
+				return
+			}
+			ok := pk.Open(res, must(intcom.NewMessage(mm)), must(intcom.NewWitness(rr))) == nil
+			mo := new(big.Int).Mod(mm.Big(), new(big.Int).SetUint64(o)).Uint64()
+			ro := new(big.Int).Mod(rr.Big(), new(big.Int).SetUint64(o)).Uint64()
+			homs = append(homs, []any{op, icVal(res), mo, ro, ok, false})
+		}
+		mOp := must(pk.MessageOp(M, msg(m3)))
+		wOp := must(pk.WitnessOp(W, wit(r3)))
+		r1, e1 := pk.CommitmentOp(c, c3)
+		hom("op", r1, e1, mOp.Value(), wOp.Value())
+		r1, e1 = tk.CommitmentOp(c, c3)
+		hom("op", r1, e1, mOp.Value(), wOp.Value())
+		r1, e1 = pk.CommitmentOpInv(c)
+		hom("inv", r1, e1, must(pk.MessageOpInv(M)).Value(), must(pk.WitnessOpInv(W)).Value())
+		r1, e1 = pk.CommitmentScalarOp(c, I(s))
+		hom("scal", r1, e1, must(pk.MessageScalarOp(M, I(s))).Value(), must(pk.WitnessScalarOp(W, I(s))).Value())
+		r1, e1 = pk.ReRandomise(c, wit(r3))
+		hom("rerand", r1, e1, M.Value(), wOp.Value())
+		r1, e1 = pk.Shift(c, msg(m3))
+		hom("shift", r1, e1, mOp.Value(), W.Value())
+		// commitments.Commit samples a wide witness; logged mod o
+		c5, w5, err := commitments.Commit(pk, M, prng)
+		if err != nil {
+			fail("intcom Commit: " + err.Error())
+		}
+		w5mod := new(big.Int).Mod(w5.Value().Big(), new(big.Int).SetUint64(o)).Uint64()
+		emit("int", fmt.Sprintf("int:N=%d:t=%d:lam=%d:m=%d:r=%d", N, tv, lam, m, r), map[string]any{
+			"N": N, "o": o, "s": sv, "t": tv, "lam": lam, "m": m, "r": r, "c": cv, "ct": icVal(ct),
+			"opens": opens, "equivs": equivs, "homs": homs, "m3": m3, "r3": r3, "sc": s, "c3": icVal(c3),
+			"sampled": []any{w5mod, icVal(c5)}})
+	}
+}
